@@ -74,7 +74,7 @@ def build_xyz(ctx, natom=2, variant="default"):
     probes = _probes(natom)
     z = _atnums(ctx, natom, probes)
     c = _coords(ctx, natom, probes, -900 * ANG, 900 * ANG)
-    title = ctx.choice([None, "water molecule"], label="title")
+    title = ctx.choice([None, "1 1 1 water  molecule 300"], label="title")
     kw = dict(atnums=z, atcoords=c, title=title)
     exp = dict(atnums=z, atcoords=c, title=title or "Created with IOData")
     dkw = {}
@@ -113,7 +113,7 @@ def build_pdb(ctx, natom=2, variant="default"):
     probes = _probes(natom)
     z = _atnums(ctx, natom, probes)
     c = _coords(ctx, natom, probes, -90 * ANG, 900 * ANG)
-    title = ctx.choice([None, "a protein"], label="title")
+    title = ctx.choice([None, "2024 01 15 a protein"], label="title")
     kw = dict(atnums=z, atcoords=c, title=title)
     exp = dict(atnums=z, atcoords=c, title=title or "Created with IOData")
     sym = ctx.mode == "sym"
@@ -128,10 +128,10 @@ def build_pdb(ctx, natom=2, variant="default"):
         resnums = np.array([(i % 900) + 1 for i in range(natom)])
         chain = np.array(["A"] * natom)
         kw["atffparams"] = dict(attypes=attypes, restypes=restypes, resnums=resnums)
-        kw["extra"] = dict(occupancies=occ, bfactors=bf, chainids=chain, compound="MY COMPOUND")
+        kw["extra"] = dict(occupancies=occ, bfactors=bf, chainids=chain, compound="1 2 MY COMPOUND")
         exp.update({"atffparams.attypes": attypes, "atffparams.restypes": restypes, "atffparams.resnums": resnums,
                     "extra.occupancies": occ, "extra.bfactors": bf, "extra.chainids": chain,
-                    "extra.compound": "MY COMPOUND"})
+                    "extra.compound": "1 2 MY COMPOUND"})
     if variant in ("bonds", "star"):
         # bonds are given in no particular order and with either atom first (a legitimate bond list)
         b = [[natom - 1, 0, 1]] if natom > 1 else []
@@ -152,7 +152,7 @@ def build_mol2(ctx, natom=2, variant="default"):
     probes = _probes(natom)
     z = _atnums(ctx, natom, probes)
     c = _coords(ctx, natom, probes, -900 * ANG, 900 * ANG)
-    title = ctx.choice([None, "ligand 7"], label="title")
+    title = ctx.choice([None, "7 ligand 7"], label="title")
     kw = dict(atnums=z, atcoords=c, title=title)
     exp = dict(atnums=z, atcoords=c, title=title or "Created with IOData")
     sym = ctx.mode == "sym"
@@ -183,7 +183,7 @@ def build_sdf(ctx, natom=2, variant="default"):
     probes = _probes(natom)
     z = _atnums(ctx, natom, probes)
     c = _coords(ctx, natom, probes, -9000 * ANG, 9000 * ANG)
-    title = ctx.choice([None, "mol 1"], label="title")
+    title = ctx.choice([None, "12 mol 1"], label="title")
     kw = dict(atnums=z, atcoords=c, title=title)
     exp = dict(atnums=z, atcoords=c, title=title or "Created with IOData")
     if variant == "bonds":
@@ -221,7 +221,7 @@ def build_poscar(ctx, natom=2, variant="lower"):
             for j in range(3):
                 cell[i, j] = ctx.real(f"cell{i}{j}", lo=-40, hi=40, default=(6.0 if i == j else 0.3 * (i - j)))
     c = _coords(ctx, natom, probes, -30, 30)
-    title = ctx.choice([None, "cubic BN"], label="title")
+    title = ctx.choice([None, "2 cubic BN"], label="title")
     kw = dict(atnums=z, atcoords=c, cellvecs=cell, title=title)
     # documented re-ordering: atoms grouped by element, elements in descending atomic number
     order = []
@@ -242,7 +242,7 @@ def build_cube(ctx, natom=2, variant="234"):
     origin = ctx.real_array("org", (3,), lo=-900, hi=900)
     axes = ctx.real_array("ax", (3, 3), lo=-900, hi=900)
     data = ctx.real_array("rho", shape)
-    title = ctx.choice([None, "density"], label="title")
+    title = ctx.choice([None, "3 density of 2 electrons"], label="title")
     kw = dict(atnums=z, atcoords=c, cube=Cube(origin=origin, axes=axes, data=data), title=title)
     exp = dict(atnums=z, atcoords=c, title=title or "Created with IOData")
     exp["cube.origin"] = origin
@@ -378,7 +378,7 @@ def build_fchk(ctx, natom=2, variant="wf-own"):
         kw["extra"] = {"polarizability_tensor": _symm(ctx, "pol", 3)}
         kw["atcharges"] = {k: ctx.real_array(f"q{k}", (natom,), lo=-9, hi=9)
                            for k in ("mulliken", "esp", "npa", "mbs", "hirshfeld", "cm5")}
-        kw["title"] = "fchk title"
+        kw["title"] = "16 fchk title 2"
         kw["lot"] = "mp2" if variant == "post" else ("restricted hf" if variant == "lotblank" else "hf")
         kw["obasis_name"] = "sto-3g"
         kw["run_type"] = ctx.choice(["energy", "freq", "opt", "scan"], label="run_type")
@@ -418,7 +418,7 @@ def build_wfmt(fmt):
         tol = dict(atcoords=2e-6 if fmt == "molekel" else 1e-7)
         full = variant in ("full", "uhf", "ecp")
         if fmt in ("wfn", "wfx", "molden") and full:
-            kw["title"] = f"{fmt} title"
+            kw["title"] = f"3 21 {fmt} title"
             exp["title"] = kw["title"]
         if fmt in ("wfn", "wfx"):
             kw["extra"] = {}
@@ -467,7 +467,7 @@ def build_json(ctx, natom=2, variant="full"):
     kw["spinpol"] = 2
     exp["charge"], exp["spinpol"] = kw["charge"], kw["spinpol"]
     if variant == "full":
-        kw["title"] = "a qcschema molecule"
+        kw["title"] = "1 qcschema molecule"
         kw["atmasses"] = ctx.real_array("mass", (natom,), lo=1.0, hi=5e5)
         if natom >= 2:
             kw["bonds"] = np.array([[0, 1, 2]] + ([[1, 2, 1]] if natom >= 3 else []))
